@@ -117,7 +117,13 @@ func checkConservationReads(r *runner) []Violation {
 		if or.Op.Kind != KRaw || or.Op.Raw == nil || or.Op.Raw.Method != "GET" || or.Out.Class != "ok" || or.Op.Raw.Body != "" {
 			continue
 		}
-		path, _, _ := strings.Cut(or.Op.Raw.Path, "?")
+		path, query, _ := strings.Cut(or.Op.Raw.Path, "?")
+		if r.w.fired[FClockJump] > 0 && (strings.Contains(query, "useInsertionDate=true") || strings.Contains(query, "insertionDate=true")) {
+			// the database clock was moved in this run (thorough tier): insertion dates are then not in commit order,
+			// the moves inserted up to an instant are not a prefix of the history, and "at that instant" names no
+			// state of the ledger to conserve anything (same reasoning as metadata-at-pit, 15.17)
+			continue
+		}
 		dec := func(into any) bool {
 			d := json.NewDecoder(strings.NewReader(string(or.Out.Body)))
 			d.UseNumber()
